@@ -11,35 +11,43 @@
 From PV Require Import Base.Bytes Base.Res.
 From PV Require Import Spec.EncapParser Spec.MRParser Spec.TargetIface Spec.TargetCore.
 From PV Require Import Proofs.LifecycleTarget Model.Lifecycle Proofs.LifecycleP Proofs.LifecycleReopen
-  Proofs.LifecycleInv Proofs.LifecycleWitness.
+  Proofs.LifecycleInv Proofs.LifecycleHistory Proofs.LifecycleWitness.
 Open Scope Z_scope.
 
-(* inputs: injected service errors carry a status whose byte is not 0; routes and urandom draws are
-   byte strings; messages given to generic_message(connected=False) do not themselves ask the
-   connection manager to open or close a connection *)
+(* inputs: injected service errors carry a status whose byte is not 0; route segments are byte
+   strings and os.urandom(4) returns 4 bytes; messages given to generic_message(connected=False) do
+   not themselves ask the connection manager to open or close a connection *)
 Definition inputs_ok (inj : list injection) (route rands : list bytes) (ops : list op) : Prop :=
-  inj_ok inj /\ all_bytes route /\ all_bytes rands /\ Forall op_ok ops.
+  inj_ok inj /\ all_bytes route /\ all_draws rands /\ Forall op_ok ops.
 
 Section Statements.
 Variable P : faults -> Prop.      (* the fault schedules a statement ranges over *)
 
-(* nothing is sent on a connection before a session is registered and a Forward Open succeeded:
-   every SendUnitData frame that reaches the target finds, in the target's tables AT THAT MOMENT, the
-   session of its header and a connection of that session with the connection id it carries
-   ([unitdata_ok], Proofs/LifecycleInv.v; sessions enter the table only by a granted RegisterSession
-   and connections only by a granted Forward Open: Proofs/LifecycleTarget.tstep_effect) *)
+(* nothing is sent on a connection before a session is registered and a Forward Open succeeded.
+   (a) every SendUnitData frame that reaches the target finds, in the target's tables AT THAT MOMENT,
+   the session of its header and a connection of that session with the connection id it carries
+   ([unitdata_ok], Proofs/LifecycleInv.v);
+   (b) in the trace, every such frame is preceded, with no reset of the TCP connection in between, by
+   a RegisterSession frame that put that session into the table and by a Forward Open frame that
+   created, in that session, the connection whose id the frame carries ([unitdata_preceded],
+   Proofs/LifecycleHistory.v; frames are classified by the target's own strict parsers) *)
 Definition no_connected_before_fo : Prop :=
   forall S (h : handler S) app cfg inj flt logix route rands ops,
     P flt -> inputs_ok inj route rands ops ->
-    Forall (deliver_ok (S := S)) (w_trace (fst (fst (run h app cfg inj flt logix route rands ops)))).
+    let tr := w_trace (fst (fst (run h app cfg inj flt logix route rands ops))) in
+    Forall (deliver_ok (S := S)) tr
+    /\ forall newer b fr rep older, tr = newer ++ TDeliver b fr rep :: older -> unitdata_preceded h older fr.
 
-(* extended first, then standard: a standard Forward Open (service 0x54 to the connection manager, as
-   the target's parsers read the frame) reaches the target only after a Large one (0x5B) that the
-   target did not grant (its connection table unchanged) *)
+(* extended first, then standard with the 500-byte size: a standard Forward Open (service 0x54 to the
+   connection manager, as the target's parsers read the frame) reaches the target only after a Large
+   one (0x5B) that the target did not grant (its connection table unchanged); and the connection
+   sizes the target's parser reads from every Forward Open frame ([fo_sizes]) are 4000 / 4000 in a
+   Large one and 500 / 500 in a standard one *)
 Definition fo_order : Prop :=
   forall S (h : handler S) app cfg inj flt logix route rands ops,
     P flt -> inputs_ok inj route rands ops ->
-    fo_trace_ok h (w_trace (fst (fst (run h app cfg inj flt logix route rands ops)))).
+    let tr := w_trace (fst (fst (run h app cfg inj flt logix route rands ops))) in
+    fo_trace_ok h tr /\ Forall (size_ok (S := S)) tr.
 
 (* failures surface only as library exceptions or falsy Tags: no call outcome is a foreign exception
    (the with-body's own exception is [OUser]) *)
@@ -77,14 +85,14 @@ Definition C10_full : Prop := C10_statement (fun _ => True).
 Theorem C10_library_exceptions_only : library_exceptions_only (fun _ => True).
 Proof.
   intros S h app cfg inj flt logix route rands ops _ Hinj. unfold run.
-  pose proof (run_ops_good h cfg logix flt ops _ (start_good app cfg inj rands route Hinj)) as (_ & F).
+  pose proof (run_ops_good h cfg logix flt ops _ (start_good h app cfg inj rands route Hinj)) as (_ & F).
   cbv zeta in F. eapply Forall_impl; [| exact F]. intros o [_ L]. exact L.
 Qed.
 
 Theorem C10_close_resets : close_resets (fun _ => True).
 Proof.
   intros S h app cfg inj flt logix route rands pre _ Hinj. unfold run. rewrite run_ops_app.
-  pose proof (run_ops_good h cfg logix flt pre _ (start_good app cfg inj rands route Hinj)) as (G & _).
+  pose proof (run_ops_good h cfg logix flt pre _ (start_good h app cfg inj rands route Hinj)) as (G & _).
   cbv zeta in G. destruct (run_ops h logix flt _ pre) as [s1 l1]. cbn [fst snd] in *.
   cbn [run_ops exec_op].
   pose proof (exec_sop_good h cfg logix flt s1 Close G) as (_ & _ & C). cbv zeta in C.
@@ -112,7 +120,7 @@ Qed.
 Theorem no_connected_before_fo_refuted : ~ no_connected_before_fo (fun _ => True).
 Proof.
   intros H. specialize (H basic_state basic_handler init_basic default_cfg [] w_faults false [] w_rands w_ops I w_inputs_ok).
-  apply trace_ok_b in H. vm_compute in H. discriminate.
+  destruct H as [H _]. apply trace_ok_b in H. vm_compute in H. discriminate.
 Qed.
 
 (* the same late reply, read as a refusal: the Large Forward Open was GRANTED by the target, the
@@ -125,7 +133,7 @@ Proof. split; [constructor |]. split; [constructor |]. split; repeat constructor
 Theorem fo_order_refuted : ~ fo_order (fun _ => True).
 Proof.
   intros H. specialize (H basic_state basic_handler init_basic default_cfg [] w_faults false [] w_rands w2_ops I w2_inputs_ok).
-  apply fo_trace_ok_b in H. vm_compute in H. discriminate.
+  destruct H as [H _]. apply fo_trace_ok_b in H. vm_compute in H. discriminate.
 Qed.
 
 Theorem C10_full_refuted : ~ C10_full.
@@ -138,18 +146,20 @@ Theorem C10_no_connected_before_fo : no_connected_before_fo (fun flt => C10_guar
 Proof.
   intros S h app cfg inj flt logix route rands ops Hg (Hinj & Hr & Hn & Hops). unfold run.
   assert (late_reply_free flt = true) as Hlate by (unfold C10_guard in Hg; destruct (late_reply_free flt); [reflexivity | discriminate]).
-  pose proof (run_ops_inv h cfg flt Hlate logix ops _ (start_good app cfg inj rands route Hinj)
+  pose proof (run_ops_inv h cfg flt Hlate logix ops _ (start_good h app cfg inj rands route Hinj)
                 (start_inv h app cfg inj rands route Hr Hn) Hops) as [I0 _].
-  exact (i_trace _ _ I0).
+  pose proof (run_ops_good h cfg logix flt ops _ (start_good h app cfg inj rands route Hinj)) as ([W _] & _).
+  cbv zeta in *. split; [exact (i_trace _ _ I0) |].
+  intros newer b fr rep older E. eapply preceded_of_tables; [exact (wg_chain _ _ _ W) | exact (i_trace _ _ I0) | exact E].
 Qed.
 
 Theorem C10_fo_order : fo_order (fun flt => C10_guard flt = false).
 Proof.
   intros S h app cfg inj flt logix route rands ops Hg (Hinj & Hr & Hn & Hops). unfold run.
   assert (late_reply_free flt = true) as Hlate by (unfold C10_guard in Hg; destruct (late_reply_free flt); [reflexivity | discriminate]).
-  pose proof (run_ops_inv h cfg flt Hlate logix ops _ (start_good app cfg inj rands route Hinj)
+  pose proof (run_ops_inv h cfg flt Hlate logix ops _ (start_good h app cfg inj rands route Hinj)
                 (start_inv h app cfg inj rands route Hr Hn) Hops) as [I0 _].
-  exact (i_fo _ _ I0).
+  split; [exact (i_fo _ _ I0) | exact (i_sizes _ _ I0)].
 Qed.
 
 Theorem C10_guarded : C10_statement (fun flt => C10_guard flt = false).
@@ -180,12 +190,16 @@ Example C10_inhabited :
   inputs_ok [] [] w_rands ex_ops /\ C10_guard no_faults = false
   /\ List.length (filter (is_cmd 112) (w_trace (fst (fst ex_run)))) = 3%nat
   /\ existsb (fun e => match e with TDeliver _ f _ => effect_is (frame_effect f) false | _ => false end) (w_trace (fst (fst ex_run))) = true
+  /\ filter (fun o => match o with Some _ => true | None => false end)
+            (map (fun e => match e with TDeliver _ f _ => fo_sizes f | _ => None end) (w_trace (fst (fst ex_run))))
+     = [Some (false, 500, 500); Some (true, 4000, 4000)]
   /\ map o_out (snd ex_run) = [OBool true; OTag true; OTag true; OTag true; OTags [true]; OUser; OBool true; ONone]
   /\ quiet_open no_faults (fst (fst (drv_close basic_handler no_faults (fst ex_run))))
   /\ cf_accept_session (t_cfg (w_t (fst (fst (drv_close basic_handler no_faults (fst ex_run)))))) = true.
 Proof.
   split; [split; [constructor |]; split; [constructor |]; split; repeat constructor |].
   split; [reflexivity |]. split; [vm_compute; reflexivity |]. split; [vm_compute; reflexivity |].
+  split; [vm_compute; reflexivity |].
   split; [vm_compute; reflexivity |]. split; [vm_compute; repeat split |]. vm_compute. reflexivity.
 Qed.
 
